@@ -29,15 +29,15 @@ Proof. destruct o; reflexivity. Qed.
 
 Lemma out_app_no_out_r o : out_app o no_out = o.
 Proof.
-  destruct o as [a d n m]. unfold out_app, no_out.
-  cbn [accepted delivered disc_calls miss].
-  rewrite !app_nil_r, Nat.add_0_r, orb_false_r. reflexivity.
+  destruct o as [a d n k m]. unfold out_app, no_out.
+  cbn [accepted delivered disc_calls conn_calls miss].
+  rewrite !app_nil_r, !Nat.add_0_r, orb_false_r. reflexivity.
 Qed.
 
 Lemma out_app_assoc a b c : out_app a (out_app b c) = out_app (out_app a b) c.
 Proof.
-  unfold out_app. cbn [accepted delivered disc_calls miss].
-  rewrite !app_assoc, Nat.add_assoc, orb_assoc. reflexivity.
+  unfold out_app. cbn [accepted delivered disc_calls conn_calls miss].
+  rewrite !app_assoc, !Nat.add_assoc, orb_assoc. reflexivity.
 Qed.
 
 (* ------------------------------------------------------------------ *)
@@ -90,6 +90,10 @@ Proof.
   pose proof (zlen_nonneg p). unfold two31 in *. lia.
 Qed.
 
+(* what disconnect() makes of a connection that was not DISCONNECTED *)
+Definition dead (now : Z) (c : conn) : conn :=
+  if reconnect c then connect now c else cleared c.
+
 Section C13.
   Variable dec : bytes -> dres.
   Variable payload : N -> bytes.
@@ -102,18 +106,20 @@ Section C13.
 
   (* outputs of an event that only delivers [ms] *)
   Definition mk_out (ms : list N) : outs :=
-    {| accepted := []; delivered := ms; disc_calls := 0; miss := false |}.
+    {| accepted := []; delivered := ms; disc_calls := 0; conn_calls := 0; miss := false |}.
 
   (* one successful recv of [chunk] followed by the parse loop *)
-  Definition feed (c : conn) (chunk : bytes) : conn * outs :=
-    parse_all dec (set_rbuf c (rbuf c ++ chunk)).
+  Definition feed (now : Z) (c : conn) (chunk : bytes) : conn * outs :=
+    parse_all dec now (set_rbuf c (rbuf c ++ chunk)).
 
-  Fixpoint feed_all (c : conn) (cs : list bytes) : conn * outs :=
+  (* [now] is only looked at by a disconnect (a reconnecting callback stamps
+     the fresh connection with it) *)
+  Fixpoint feed_all (now : Z) (c : conn) (cs : list bytes) : conn * outs :=
     match cs with
     | [] => (c, no_out)
     | ch :: r =>
-      let (c1, o1) := feed c ch in
-      let (c2, o2) := feed_all c1 r in (c2, out_app o1 o2)
+      let (c1, o1) := feed now c ch in
+      let (c2, o2) := feed_all now c1 r in (c2, out_app o1 o2)
     end.
 
   Lemma stream_cons m ms : stream (m :: ms) = frame (payload m) ++ stream ms.
@@ -133,9 +139,9 @@ Section C13.
 
   (* a complete decodable frame at the head of the buffer is delivered and
      exactly its bytes are consumed *)
-  Lemma parse_one_frame c p rest m :
+  Lemma parse_one_frame now c p rest m :
     rbuf c = frame p ++ rest -> zlen p < two31 -> dec p = DOk m ->
-    parse_one dec c = (set_rbuf c rest, PMsg m).
+    parse_one dec now c = (set_rbuf c rest, PMsg m).
   Proof.
     intros Hb Hl Hd. unfold parse_one; cbv zeta. rewrite Hb.
     assert (Hlen : zlen (frame p ++ rest) = 4 + zlen p + zlen rest)
@@ -158,9 +164,9 @@ Section C13.
   Qed.
 
   (* a strict prefix of a frame: wait for more bytes *)
-  Lemma parse_one_strict_prefix c t s p :
+  Lemma parse_one_strict_prefix now c t s p :
     rbuf c = t -> t ++ s = frame p -> s <> [] -> zlen p < two31 ->
-    parse_one dec c = (c, PNone).
+    parse_one dec now c = (c, PNone).
   Proof.
     intros Hb Hts Hs Hl. unfold parse_one; cbv zeta. rewrite Hb.
     destruct (zlen t <? 4) eqn:E1; [reflexivity|].
@@ -180,9 +186,9 @@ Section C13.
   Qed.
 
   (* the two kinds of bad frame *)
-  Lemma parse_one_negative c bad rest :
+  Lemma parse_one_negative now c bad rest :
     rbuf c = bad ++ rest -> (4 <= length bad)%nat -> unpack_i bad < 0 ->
-    parse_one dec c = (fst (disconnect c), PDisc).
+    parse_one dec now c = (fst (disconnect now c), PDisc).
   Proof.
     intros Hb H4 Hneg. unfold parse_one; cbv zeta. rewrite Hb.
     assert (Hlen : 4 <= zlen (bad ++ rest))
@@ -193,9 +199,9 @@ Section C13.
     destruct (unpack_i bad <? 0) eqn:E2; [reflexivity|lia].
   Qed.
 
-  Lemma parse_one_undecodable c d rest :
+  Lemma parse_one_undecodable now c d rest :
     rbuf c = frame d ++ rest -> zlen d < two31 -> dec d = DFail ->
-    parse_one dec c = (fst (disconnect c), PDisc).
+    parse_one dec now c = (fst (disconnect now c), PDisc).
   Proof.
     intros Hb Hl Hd. unfold parse_one; cbv zeta. rewrite Hb.
     assert (Hlen : zlen (frame d ++ rest) = 4 + zlen d + zlen rest)
@@ -215,8 +221,8 @@ Section C13.
   Qed.
 
   (* every parsed frame removes at least its 4-byte length field *)
-  Lemma parse_one_msg_consumes c c' id :
-    parse_one dec c = (c', PMsg id) -> (length (rbuf c') + 4 <= length (rbuf c))%nat.
+  Lemma parse_one_msg_consumes now c c' id :
+    parse_one dec now c = (c', PMsg id) -> (length (rbuf c') + 4 <= length (rbuf c))%nat.
   Proof.
     unfold parse_one; cbv zeta. intros H.
     destruct (zlen (rbuf c) <? 4) eqn:E1; [discriminate|].
@@ -232,44 +238,44 @@ Section C13.
   (* parse_loop                                                        *)
 
   (* C13_parse_fuel_sufficient, general form *)
-  Lemma parse_loop_fuel_irrelevant fuel : forall c extra,
+  Lemma parse_loop_fuel_irrelevant now fuel : forall c extra,
     (length (rbuf c) < fuel)%nat ->
-    parse_loop dec fuel c = parse_loop dec (fuel + extra) c.
+    parse_loop dec now fuel c = parse_loop dec now (fuel + extra) c.
   Proof.
     induction fuel as [|f IH]; intros c extra Hlen; [lia|].
     cbn [parse_loop Nat.add].
-    destruct (parse_one dec c) as [c' r] eqn:E.
+    destruct (parse_one dec now c) as [c' r] eqn:E.
     destruct r as [|id| |]; try reflexivity.
     apply parse_one_msg_consumes in E.
     rewrite (IH c' extra) by lia. reflexivity.
   Qed.
 
-  Lemma parse_all_fuel_sufficient c extra :
-    parse_loop dec (S (length (rbuf c))) c = parse_loop dec (S (length (rbuf c)) + extra) c.
+  Lemma parse_all_fuel_sufficient now c extra :
+    parse_loop dec now (S (length (rbuf c))) c = parse_loop dec now (S (length (rbuf c)) + extra) c.
   Proof. apply parse_loop_fuel_irrelevant. lia. Qed.
 
   (* the loop over a run of good frames followed by anything *)
-  Lemma parse_loop_stream ms : forall c tail fuel,
+  Lemma parse_loop_stream now ms : forall c tail fuel,
     Forall good ms -> rbuf c = stream ms ++ tail -> (length ms < fuel)%nat ->
-    parse_loop dec fuel c =
-      (let (c', o) := parse_loop dec (fuel - length ms) (set_rbuf c tail) in
+    parse_loop dec now fuel c =
+      (let (c', o) := parse_loop dec now (fuel - length ms) (set_rbuf c tail) in
        (c', out_app (mk_out ms) o)).
   Proof.
     induction ms as [|m ms IH]; intros c tail fuel Hg Hb Hf.
     - cbn [stream map concat app] in Hb. cbn [length]. rewrite Nat.sub_0_r.
       rewrite <- Hb, set_rbuf_same.
-      destruct (parse_loop dec fuel c) as [c' o].
+      destruct (parse_loop dec now fuel c) as [c' o].
       change (mk_out []) with no_out. rewrite out_app_no_out_l. reflexivity.
     - destruct fuel as [|f]; [cbn in Hf; lia|].
       inversion Hg as [|m' ms' [Hd Hl] Hg']; subst m' ms'.
       rewrite stream_cons, <- app_assoc in Hb.
       cbn [parse_loop].
-      rewrite (parse_one_frame c (payload m) (stream ms ++ tail) m Hb Hl Hd).
+      rewrite (parse_one_frame now c (payload m) (stream ms ++ tail) m Hb Hl Hd).
       rewrite (IH (set_rbuf c (stream ms ++ tail)) tail f Hg' eq_refl)
         by (cbn [length] in Hf; lia).
       cbn [length Nat.sub].
       change (set_rbuf (set_rbuf c (stream ms ++ tail)) tail) with (set_rbuf c tail).
-      destruct (parse_loop dec (f - length ms) (set_rbuf c tail)) as [c' o].
+      destruct (parse_loop dec now (f - length ms) (set_rbuf c tail)) as [c' o].
       reflexivity.
   Qed.
 
@@ -290,30 +296,30 @@ Section C13.
     exists (frame (payload m)). split; [apply frame_nonnil|reflexivity].
   Qed.
 
-  Lemma prefix_stuck tail ms2 c :
+  Lemma prefix_stuck now tail ms2 c :
     Forall good ms2 -> next_frame_prefix tail ms2 -> rbuf c = tail ->
-    parse_one dec c = (c, PNone).
+    parse_one dec now c = (c, PNone).
   Proof.
     intros Hg Hp Hb. destruct ms2 as [|m r]; cbn [next_frame_prefix] in Hp.
     - subst tail. unfold parse_one; cbv zeta. rewrite Hb. reflexivity.
     - destruct Hp as (s & Hs & Hts).
       inversion Hg as [|m' r' [Hd Hl] Hg']; subst m' r'.
-      exact (parse_one_strict_prefix c tail s (payload m) Hb Hts Hs Hl).
+      exact (parse_one_strict_prefix now c tail s (payload m) Hb Hts Hs Hl).
   Qed.
 
-  Lemma parse_all_prefix c ms1 ms2 tail :
+  Lemma parse_all_prefix now c ms1 ms2 tail :
     Forall good ms1 -> Forall good ms2 -> next_frame_prefix tail ms2 ->
     rbuf c = stream ms1 ++ tail ->
-    parse_all dec c = (set_rbuf c tail, mk_out ms1).
+    parse_all dec now c = (set_rbuf c tail, mk_out ms1).
   Proof.
     intros Hg1 Hg2 Hp Hb. unfold parse_all.
     pose proof (stream_length_ge ms1) as Hlen.
     assert (Hl : (length (stream ms1) <= length (rbuf c))%nat)
       by (rewrite Hb, app_length; lia).
-    rewrite (parse_loop_stream ms1 c tail _ Hg1 Hb) by lia.
+    rewrite (parse_loop_stream now ms1 c tail _ Hg1 Hb) by lia.
     destruct (S (length (rbuf c)) - length ms1)%nat as [|f] eqn:Ef; [lia|].
     cbn [parse_loop].
-    rewrite (prefix_stuck tail ms2 (set_rbuf c tail) Hg2 Hp eq_refl).
+    rewrite (prefix_stuck now tail ms2 (set_rbuf c tail) Hg2 Hp eq_refl).
     rewrite out_app_no_out_r. reflexivity.
   Qed.
 
@@ -377,35 +383,35 @@ Section C13.
   (* ---------------------------------------------------------------- *)
   (* feeding chunks                                                    *)
 
-  Lemma feed_step c ch rest ms :
+  Lemma feed_step now c ch rest ms :
     Forall good ms -> rbuf c ++ ch ++ rest = stream ms ->
     exists ms1 ms2 t1,
       ms = ms1 ++ ms2 /\ rbuf c ++ ch = stream ms1 ++ t1 /\ next_frame_prefix t1 ms2 /\
-      feed c ch = (set_rbuf c t1, mk_out ms1).
+      feed now c ch = (set_rbuf c t1, mk_out ms1).
   Proof.
     intros Hg H. rewrite app_assoc in H.
     destruct (stream_prefix_split ms _ _ H) as (ms1 & ms2 & t1 & E1 & E2 & E3).
     exists ms1, ms2, t1. repeat split; try assumption.
     subst ms. apply Forall_app in Hg as [Hg1 Hg2].
     unfold feed.
-    rewrite (parse_all_prefix (set_rbuf c (rbuf c ++ ch)) ms1 ms2 t1 Hg1 Hg2 E3 E2).
+    rewrite (parse_all_prefix now (set_rbuf c (rbuf c ++ ch)) ms1 ms2 t1 Hg1 Hg2 E3 E2).
     reflexivity.
   Qed.
 
-  Lemma feed_all_prefix cs : forall ms c rest,
+  Lemma feed_all_prefix now cs : forall ms c rest,
     Forall good ms -> next_frame_prefix (rbuf c) ms ->
     rbuf c ++ concat cs ++ rest = stream ms ->
     exists ms1 ms2 tail,
       ms = ms1 ++ ms2 /\ rbuf c ++ concat cs = stream ms1 ++ tail /\
       next_frame_prefix tail ms2 /\
-      feed_all c cs = (set_rbuf c tail, mk_out ms1).
+      feed_all now c cs = (set_rbuf c tail, mk_out ms1).
   Proof.
     induction cs as [|ch cs IH]; intros ms c rest Hg H0 H.
     - exists [], ms, (rbuf c). cbn [concat]. rewrite app_nil_r.
       repeat split; [exact H0|].
       cbn [feed_all]. rewrite set_rbuf_same. reflexivity.
     - cbn [concat] in H. rewrite <- app_assoc in H.
-      destruct (feed_step c ch (concat cs ++ rest) ms Hg H)
+      destruct (feed_step now c ch (concat cs ++ rest) ms Hg H)
         as (ms1 & ms2 & t1 & E1 & E2 & E3 & E4).
       subst ms. pose proof Hg as Hg'. apply Forall_app in Hg' as [Hg1 Hg2].
       assert (H' : rbuf (set_rbuf c t1) ++ concat cs ++ rest = stream ms2).
@@ -429,18 +435,18 @@ Section C13.
      delivered list is [firstn k ms] for a k such that the bytes that arrived are
      the first k frames followed by a strict prefix [tail] of frame k, and the
      read buffer is exactly [tail]. *)
-  Theorem reader_prefix ms cs rest c :
+  Theorem reader_prefix now ms cs rest c :
     Forall good ms -> rbuf c = [] -> concat cs ++ rest = stream ms ->
     exists k tail,
       (k <= length ms)%nat /\
       concat cs = stream (firstn k ms) ++ tail /\
       next_frame_prefix tail (skipn k ms) /\
-      feed_all c cs = (set_rbuf c tail, mk_out (firstn k ms)).
+      feed_all now c cs = (set_rbuf c tail, mk_out (firstn k ms)).
   Proof.
     intros Hg Hr H.
     assert (H0 : next_frame_prefix (rbuf c) ms) by (rewrite Hr; apply next_frame_prefix_nil).
     assert (H' : rbuf c ++ concat cs ++ rest = stream ms) by (rewrite Hr; exact H).
-    destruct (feed_all_prefix cs ms c rest Hg H0 H')
+    destruct (feed_all_prefix now cs ms c rest Hg H0 H')
       as (ms1 & ms2 & tail & E1 & E2 & E3 & E4).
     rewrite Hr in E2. cbn [app] in E2.
     exists (length ms1), tail. subst ms.
@@ -452,11 +458,11 @@ Section C13.
 
   (* ... and that k (and tail) is the only one: the same statement for every
      decomposition of the bytes that arrived *)
-  Theorem reader_prefix_any ms cs k tail c :
+  Theorem reader_prefix_any now ms cs k tail c :
     Forall good ms -> rbuf c = [] -> (k <= length ms)%nat ->
     concat cs = stream (firstn k ms) ++ tail ->
     next_frame_prefix tail (skipn k ms) ->
-    feed_all c cs = (set_rbuf c tail, mk_out (firstn k ms)).
+    feed_all now c cs = (set_rbuf c tail, mk_out (firstn k ms)).
   Proof.
     intros Hg Hr Hk Hc Hp.
     assert (Hrest : exists rest, concat cs ++ rest = stream ms).
@@ -468,7 +474,7 @@ Section C13.
       - destruct Hp as (s & _ & Hts). exists (s ++ stream r).
         rewrite stream_cons, <- Hts, <- !app_assoc. reflexivity. }
     destruct Hrest as (rest & Hrest).
-    destruct (reader_prefix ms cs rest c Hg Hr Hrest) as (k' & tail' & Hk' & Hc' & Hp' & Hf).
+    destruct (reader_prefix now ms cs rest c Hg Hr Hrest) as (k' & tail' & Hk' & Hc' & Hp' & Hf).
     assert (Hms : firstn k ms ++ skipn k ms = firstn k' ms ++ skipn k' ms)
       by (now rewrite !firstn_skipn).
     rewrite Hc in Hc'.
@@ -478,12 +484,12 @@ Section C13.
 
   (* the whole stream, in any fragmentation: exactly ms, in order, nothing
      left in the buffer, connection state untouched, no oracle miss *)
-  Theorem reader_complete ms cs c :
+  Theorem reader_complete now ms cs c :
     Forall good ms -> rbuf c = [] -> concat cs = stream ms ->
-    feed_all c cs = (c, mk_out ms).
+    feed_all now c cs = (c, mk_out ms).
   Proof.
     intros Hg Hr Hc.
-    pose proof (reader_prefix_any ms cs (length ms) [] c Hg Hr (le_n _)) as H.
+    pose proof (reader_prefix_any now ms cs (length ms) [] c Hg Hr (le_n _)) as H.
     rewrite firstn_all, skipn_all, app_nil_r in H.
     rewrite (H Hc eq_refl). rewrite <- Hr, set_rbuf_same. reflexivity.
   Qed.
@@ -497,9 +503,9 @@ Section C13.
   Definition read_quiet (tl : list rres) : Prop :=
     match tl with [] => True | REagain :: _ => True | _ => False end.
 
-  Lemma read_loop_chunks bs : forall c tl,
+  Lemma read_loop_chunks now bs : forall c tl,
     Forall (fun b => b <> []) bs ->
-    read_loop (chunks_script bs ++ tl) c = read_loop tl (set_rbuf c (rbuf c ++ concat bs)).
+    read_loop now (chunks_script bs ++ tl) c = read_loop now tl (set_rbuf c (rbuf c ++ concat bs)).
   Proof.
     induction bs as [|b bs IH]; intros c tl H.
     - cbn [chunks_script map concat app]. rewrite app_nil_r, set_rbuf_same. reflexivity.
@@ -511,18 +517,42 @@ Section C13.
       reflexivity.
   Qed.
 
-  Lemma read_loop_quiet tl c : read_quiet tl -> read_loop tl c = (c, no_out).
+  Lemma read_loop_quiet now tl c : read_quiet tl -> read_loop now tl c = (c, no_out).
   Proof. destruct tl as [|[b e| |] r]; cbn; intros H; try reflexivity; destruct H. Qed.
+
+  Lemma timed_out_false now c :
+    now - last_read c <= timeout c -> (now - last_read c >? timeout c) = false.
+  Proof. intros H. destruct (now - last_read c >? timeout c) eqn:E; [lia|reflexivity]. Qed.
+
+  Lemma timed_out_true now c :
+    now - last_read c > timeout c -> (now - last_read c >? timeout c) = true.
+  Proof. intros H. destruct (now - last_read c >? timeout c) eqn:E; [reflexivity|lia]. Qed.
 
   Lemma check_timeout_ok now c :
     now - last_read c <= timeout c -> check_timeout now c = (c, no_out).
+  Proof. intros H. unfold check_timeout. rewrite (timed_out_false now c H). reflexivity. Qed.
+
+  Lemma send_loop_empty now script c : wbuf c = [] -> send_loop now script c = (c, no_out).
+  Proof. intros H. destruct script; cbn [send_loop]; rewrite H; reflexivity. Qed.
+
+  Lemma parse_all_empty now c : rbuf c = [] -> parse_all dec now c = (c, no_out).
   Proof.
-    intros H. unfold check_timeout.
-    destruct (now - last_read c >? timeout c) eqn:E; [lia|reflexivity].
+    intros H. unfold parse_all. rewrite H. cbn [length parse_loop].
+    unfold parse_one; cbv zeta. rewrite H. reflexivity.
   Qed.
 
-  Lemma send_loop_empty script c : wbuf c = [] -> send_loop script c = (c, no_out).
-  Proof. intros H. destruct script; cbn [send_loop]; rewrite H; reflexivity. Qed.
+  (* disconnect() of a connection that is not DISCONNECTED: callback once; the
+     result is [cleared c], or the fresh CONNECTING connection when the callback
+     reconnects *)
+  Lemma disconnect_live now c :
+    st c <> Disconnected -> disconnect now c = (dead now c, disc_out).
+  Proof. intros H. unfold disconnect, dead. destruct (st c); [congruence|reflexivity|reflexivity]. Qed.
+
+  Lemma dead_buffers now c : rbuf (dead now c) = [] /\ wbuf (dead now c) = [].
+  Proof. unfold dead. destruct (reconnect c); split; reflexivity. Qed.
+
+  Lemma dead_not_connected now c : st (dead now c) <> Connected.
+  Proof. unfold dead. destruct (reconnect c); discriminate. Qed.
 
   (* One __processConnection call with the READ flag (and possibly WRITE with
      nothing to write), no error flag, no timeout, whose recv calls return the
@@ -533,22 +563,22 @@ Section C13.
     (wr = true -> wbuf c = []) ->
     Forall (fun b => b <> []) bs -> read_quiet tl ->
     step dec c (EPoll now true wr false false ss (chunks_script bs ++ tl))
-    = feed (set_last_read c now) (concat bs).
+    = feed now (set_last_read c now) (concat bs).
   Proof.
     intros Hst Ht Hw Hbs Htl. unfold step. rewrite Hst.
-    rewrite (check_timeout_ok now c Ht). cbv beta iota. rewrite Hst.
-    rewrite andb_false_r.
+    rewrite (check_timeout_ok now c Ht). cbv beta iota zeta. rewrite Hst.
+    cbn [orb andb]. unfold poll_connected.
     assert (Hs : (if wr then try_send now ss c else (c, no_out)) = (c, no_out)).
     { destruct wr; [|reflexivity]. unfold try_send.
       rewrite (check_timeout_ok now c Ht), Hst.
-      rewrite (send_loop_empty ss c (Hw eq_refl)). reflexivity. }
+      rewrite (send_loop_empty now ss c (Hw eq_refl)). reflexivity. }
     rewrite Hs. cbv beta iota. rewrite Hst.
-    rewrite (read_loop_chunks bs c tl Hbs), (read_loop_quiet tl _ Htl).
+    rewrite (read_loop_chunks now bs c tl Hbs), (read_loop_quiet now tl _ Htl).
     cbv beta iota. cbn [st set_last_read set_rbuf]. rewrite Hst.
     unfold feed.
     change (set_rbuf (set_last_read c now) (rbuf (set_last_read c now) ++ concat bs))
       with (set_last_read (set_rbuf c (rbuf c ++ concat bs)) now).
-    destruct (parse_all dec (set_last_read (set_rbuf c (rbuf c ++ concat bs)) now)) as [c4 o4].
+    destruct (parse_all dec now (set_last_read (set_rbuf c (rbuf c ++ concat bs)) now)) as [c4 o4].
     rewrite !out_app_no_out_l. reflexivity.
   Qed.
 
@@ -571,7 +601,7 @@ Section C13.
 
   Lemma step_poll_event c (p : Z * bytes) :
     st c = Connected -> snd p <> [] -> fst p - last_read c <= timeout c ->
-    step dec c (poll_event p) = feed (set_last_read c (fst p)) (snd p).
+    step dec c (poll_event p) = feed (fst p) (set_last_read c (fst p)) (snd p).
   Proof.
     intros Hst Hb Ht. unfold poll_event.
     pose proof (step_poll_is_feed c (fst p) false [] [snd p] [] Hst Ht) as H.
@@ -595,7 +625,7 @@ Section C13.
       repeat split; assumption.
     - cbn [polls_ok] in Hok. destruct Hok as (Hb & Ht & Hok).
       cbn [map concat] in H. rewrite <- app_assoc in H.
-      destruct (feed_step (set_last_read c (fst p)) (snd p) _ ms Hg H)
+      destruct (feed_step (fst p) (set_last_read c (fst p)) (snd p) _ ms Hg H)
         as (ms1 & ms2 & t1 & E1 & E2 & E3 & E4).
       cbn [rbuf set_last_read] in E2.
       subst ms. pose proof Hg as Hg'. apply Forall_app in Hg' as [Hg1 Hg2].
@@ -654,34 +684,36 @@ Section C13.
     ((4 <= length bad)%nat /\ unpack_i bad < 0) \/
     (exists d, bad = frame d /\ zlen d < two31 /\ dec d = DFail).
 
-  Definition dead (c : conn) : conn :=
-    {| st := Disconnected; rbuf := []; wbuf := []; last_read := last_read c; timeout := timeout c |}.
-
-  Lemma parse_one_bad c bad rest :
+  Lemma parse_one_bad now c bad rest :
     bad_frame bad -> rbuf c = bad ++ rest ->
-    parse_one dec c = (fst (disconnect c), PDisc).
+    parse_one dec now c = (fst (disconnect now c), PDisc).
   Proof.
     intros [[H4 Hneg]|(d & -> & Hl & Hd)] Hb.
-    - exact (parse_one_negative c bad rest Hb H4 Hneg).
-    - exact (parse_one_undecodable c d rest Hb Hl Hd).
+    - exact (parse_one_negative now c bad rest Hb H4 Hneg).
+    - exact (parse_one_undecodable now c d rest Hb Hl Hd).
   Qed.
 
-  Theorem bad_frame_disconnects c ms bad rest :
+  Definition disc_delivering (ms : list N) : outs :=
+    {| accepted := []; delivered := ms; disc_calls := 1; conn_calls := 0; miss := false |}.
+
+  Theorem bad_frame_disconnects now c ms bad rest :
     Forall good ms -> st c = Connected -> bad_frame bad ->
     rbuf c = stream ms ++ bad ++ rest ->
-    parse_all dec c =
-      (dead c, {| accepted := []; delivered := ms; disc_calls := 1; miss := false |}).
+    parse_all dec now c = (dead now c, disc_delivering ms).
   Proof.
     intros Hg Hst Hbad Hb. unfold parse_all.
     pose proof (stream_length_ge ms) as Hlen.
     assert (Hl : (length (stream ms) <= length (rbuf c))%nat)
       by (rewrite Hb, app_length; lia).
-    rewrite (parse_loop_stream ms c (bad ++ rest) _ Hg Hb) by lia.
+    rewrite (parse_loop_stream now ms c (bad ++ rest) _ Hg Hb) by lia.
     destruct (S (length (rbuf c)) - length ms)%nat as [|f] eqn:Ef; [lia|].
     cbn [parse_loop].
-    rewrite (parse_one_bad (set_rbuf c (bad ++ rest)) bad rest Hbad eq_refl).
-    unfold disconnect. cbn [fst snd st set_rbuf last_read timeout]. rewrite Hst.
-    unfold dead, out_app, mk_out. cbn [accepted delivered disc_calls miss].
+    rewrite (parse_one_bad now (set_rbuf c (bad ++ rest)) bad rest Hbad eq_refl).
+    assert (Hd : disconnect now (set_rbuf c (bad ++ rest)) = (dead now c, disc_out)).
+    { rewrite disconnect_live by (cbn [st set_rbuf]; congruence). reflexivity. }
+    rewrite Hd. cbn [fst snd].
+    unfold disc_delivering, out_app, mk_out, disc_out.
+    cbn [accepted delivered disc_calls conn_calls miss].
     rewrite (app_nil_r ms). reflexivity.
   Qed.
 
@@ -692,13 +724,12 @@ Section C13.
     Forall (fun b => b <> []) bs -> read_quiet tl -> bad_frame bad ->
     rbuf c ++ concat bs = stream ms ++ bad ++ rest ->
     step dec c (EPoll now true false false false [] (chunks_script bs ++ tl)) =
-      (dead (set_last_read c now),
-       {| accepted := []; delivered := ms; disc_calls := 1; miss := false |}).
+      (dead now (set_last_read c now), disc_delivering ms).
   Proof.
     intros Hg Hst Ht Hbs Htl Hbad Hb.
     rewrite (step_poll_is_feed c now false [] bs tl Hst Ht) by (assumption || discriminate).
     unfold feed.
-    rewrite (bad_frame_disconnects
+    rewrite (bad_frame_disconnects now
                (set_rbuf (set_last_read c now) (rbuf (set_last_read c now) ++ concat bs))
                ms bad rest Hg Hst Hbad Hb).
     reflexivity.
@@ -709,16 +740,20 @@ Section C13.
     st c = Disconnected -> step dec c (EPoll now rd wr er soerr ss rs) = (c, no_out).
   Proof. intros H. unfold step. rewrite H. reflexivity. Qed.
 
-  (* ... and whatever happens to it, it stays Disconnected, delivers nothing,
-     sends nothing, and onDisconnected is not called again *)
+  (* ... and whatever happens to it short of a connect(), it stays
+     Disconnected, delivers nothing, sends nothing, and no callback runs *)
   Definition quiet (o : outs) : Prop :=
-    accepted o = [] /\ delivered o = [] /\ disc_calls o = 0%nat /\ miss o = false.
+    accepted o = [] /\ delivered o = [] /\ disc_calls o = 0%nat /\ conn_calls o = 0%nat /\
+    miss o = false.
+
+  Definition no_connect (e : event) : Prop :=
+    match e with EConnect _ => False | _ => True end.
 
   Lemma step_disconnected c e :
-    st c = Disconnected ->
+    st c = Disconnected -> no_connect e ->
     st (fst (step dec c e)) = Disconnected /\ quiet (snd (step dec c e)).
   Proof.
-    intros H. destruct e as [now p script|now rd wr er soerr ss rs|].
+    intros H Hn. destruct e as [now p script|now rd wr er soerr ss rs|now|now]; [| | |destruct Hn].
     - unfold step, try_send, check_timeout.
       destruct (now - last_read (set_wbuf c (wbuf c ++ frame p)) >? timeout (set_wbuf c (wbuf c ++ frame p))).
       + unfold disconnect. cbn [st set_wbuf]. rewrite H. cbn. repeat split.
@@ -728,15 +763,346 @@ Section C13.
   Qed.
 
   Theorem run_disconnected es : forall c,
-    st c = Disconnected ->
+    st c = Disconnected -> Forall no_connect es ->
     st (fst (run dec c es)) = Disconnected /\ Forall quiet (snd (run dec c es)).
   Proof.
-    induction es as [|e es IH]; intros c H.
+    induction es as [|e es IH]; intros c H Hn.
     - cbn. split; [exact H|constructor].
-    - cbn [run]. pose proof (step_disconnected c e H) as [H1 H2].
+    - inversion Hn as [|e' es' Hn1 Hn2]; subst e' es'.
+      cbn [run]. pose proof (step_disconnected c e H Hn1) as [H1 H2].
       destruct (step dec c e) as [c1 o]. cbn [fst snd] in H1, H2.
-      specialize (IH c1 H1). destruct (run dec c1 es) as [c2 os]. cbn [fst snd] in *.
+      specialize (IH c1 H1 Hn2). destruct (run dec c1 es) as [c2 os]. cbn [fst snd] in *.
       destruct IH as [I1 I2]. split; [exact I1|constructor; assumption].
+  Qed.
+
+
+  (* ---------------------------------------------------------------- *)
+  (* C13_disconnect_clears                                             *)
+
+  Ltac pair_inv H c o :=
+    let H1 := fresh in let H2 := fresh in
+    apply (f_equal fst) in H as H1; apply (f_equal snd) in H as H2;
+    cbn [fst snd] in H1, H2; subst c o.
+
+  (* either onDisconnected did not run, or both buffers are empty and the
+     connection is not CONNECTED (DISCONNECTED, or CONNECTING when the callback
+     reconnected) *)
+  Definition clr (c' : conn) (o : outs) : Prop :=
+    disc_calls o = 0%nat \/ (rbuf c' = [] /\ wbuf c' = [] /\ st c' <> Connected).
+
+  Lemma disconnect_buffers now c c' o :
+    disconnect now c = (c', o) -> rbuf c' = [] /\ wbuf c' = [] /\ st c' <> Connected.
+  Proof.
+    unfold disconnect. intros H.
+    destruct (st c); destruct (reconnect c); pair_inv H c' o; cbn; repeat split; discriminate.
+  Qed.
+
+  Lemma disconnect_clr now c c' o : disconnect now c = (c', o) -> clr c' o.
+  Proof. intros H. right. exact (disconnect_buffers now c c' o H). Qed.
+
+  Lemma clr_no_out c : clr c no_out.
+  Proof. left. reflexivity. Qed.
+
+  Lemma send_loop_clr now script : forall c c' o,
+    send_loop now script c = (c', o) -> clr c' o.
+  Proof.
+    induction script as [|r script IH]; intros c c' o H; cbn [send_loop] in H.
+    - assert (H' : (c, no_out) = (c', o)) by (destruct (wbuf c); exact H).
+      pair_inv H' c' o. apply clr_no_out.
+    - destruct (wbuf c) as [|x w] eqn:Ew.
+      + pair_inv H c' o. apply clr_no_out.
+      + destruct r as [k| | | |].
+        * remember (Nat.max 1 (N.to_nat (N.min k (N.of_nat (length (x :: w)))))) as k' eqn:Ek.
+          destruct (send_loop now script (set_wbuf c (skipn k' (x :: w)))) as [c2 o2] eqn:E2.
+          apply IH in E2. pair_inv H c' o.
+          destruct E2 as [L|R]; [left; cbn [out_app disc_calls]; exact L|right; exact R].
+        * pair_inv H c' o. apply clr_no_out.
+        * exact (disconnect_clr now c c' o H).
+        * pair_inv H c' o. apply clr_no_out.
+        * exact (disconnect_clr now c c' o H).
+  Qed.
+
+  Lemma try_send_clr now script c c' o : try_send now script c = (c', o) -> clr c' o.
+  Proof.
+    unfold try_send, check_timeout. intros H.
+    destruct (now - last_read c >? timeout c).
+    - destruct (disconnect now c) as [c1 o1] eqn:E1.
+      destruct (disconnect_buffers now c c1 o1 E1) as (B1 & B2 & B3).
+      destruct (st c1) eqn:Es1.
+      + pair_inv H c' o. right. repeat split; try assumption; congruence.
+      + rewrite (send_loop_empty now script c1 B2) in H. pair_inv H c' o.
+        rewrite out_app_no_out_r. right. repeat split; try assumption; congruence.
+      + congruence.
+    - destruct (st c) eqn:Es.
+      + pair_inv H c' o. apply clr_no_out.
+      + destruct (send_loop now script c) as [c2 o2] eqn:E2. apply send_loop_clr in E2.
+        pair_inv H c' o. rewrite out_app_no_out_l. exact E2.
+      + destruct (send_loop now script c) as [c2 o2] eqn:E2. apply send_loop_clr in E2.
+        pair_inv H c' o. rewrite out_app_no_out_l. exact E2.
+  Qed.
+
+  Lemma read_loop_clr now rs : forall c c' o, read_loop now rs c = (c', o) -> clr c' o.
+  Proof.
+    induction rs as [|r rs IH]; intros c c' o H; cbn [read_loop] in H.
+    - pair_inv H c' o. apply clr_no_out.
+    - destruct r as [b soerr| |].
+      + destruct soerr; [exact (disconnect_clr now c c' o H)|].
+        destruct b as [|x b]; [exact (disconnect_clr now c c' o H)|].
+        exact (IH _ _ _ H).
+      + pair_inv H c' o. apply clr_no_out.
+      + exact (disconnect_clr now c c' o H).
+  Qed.
+
+  Lemma parse_one_disc now c c1 :
+    parse_one dec now c = (c1, PDisc) -> c1 = fst (disconnect now c).
+  Proof.
+    unfold parse_one; cbv zeta. intros H.
+    destruct (zlen (rbuf c) <? 4); [discriminate|].
+    destruct (unpack_i (pyslice (rbuf c) 0 4) <? 0).
+    { apply (f_equal fst) in H. cbn [fst] in H. congruence. }
+    destruct (zlen (rbuf c) - 4 <? unpack_i (pyslice (rbuf c) 0 4)); [discriminate|].
+    destruct (dec _); try discriminate.
+    apply (f_equal fst) in H. cbn [fst] in H. congruence.
+  Qed.
+
+  Lemma parse_loop_clr now fuel : forall c c' o,
+    parse_loop dec now fuel c = (c', o) -> clr c' o.
+  Proof.
+    induction fuel as [|f IH]; intros c c' o H; cbn [parse_loop] in H.
+    - pair_inv H c' o. apply clr_no_out.
+    - destruct (parse_one dec now c) as [c1 r] eqn:E1.
+      destruct r as [|id| |].
+      + pair_inv H c' o. apply clr_no_out.
+      + destruct (parse_loop dec now f c1) as [c2 o2] eqn:E2. apply IH in E2.
+        pair_inv H c' o.
+        destruct E2 as [L|R]; [left; cbn [out_app disc_calls]; exact L|right; exact R].
+      + apply parse_one_disc in E1. pair_inv H c' o. subst c1.
+        apply (disconnect_clr now c). apply surjective_pairing.
+      + pair_inv H c' o. left. reflexivity.
+  Qed.
+
+  Lemma clr_connected c o : clr c o -> st c = Connected -> disc_calls o = 0%nat.
+  Proof. intros [L|(_ & _ & R)] H; [exact L|congruence]. Qed.
+
+  Lemma poll_connected_clr now rd wr ss rs c c' o :
+    poll_connected dec now rd wr ss rs c = (c', o) -> clr c' o.
+  Proof.
+    unfold poll_connected. intros H.
+    destruct (if wr then try_send now ss c else (c, no_out)) as [c2 o2] eqn:E2.
+    assert (C2 : clr c2 o2).
+    { destruct wr; [exact (try_send_clr now ss c c2 o2 E2)|].
+      pair_inv E2 c2 o2. apply clr_no_out. }
+    destruct (st c2) eqn:Es2.
+    - pair_inv H c' o. exact C2.
+    - pair_inv H c' o. exact C2.
+    - pose proof (clr_connected c2 o2 C2 Es2) as D2.
+      destruct rd; [|pair_inv H c' o; exact C2].
+      destruct (read_loop now rs c2) as [c3 o3] eqn:E3.
+      pose proof (read_loop_clr now rs c2 c3 o3 E3) as C3.
+      cbn [st set_last_read] in H.
+      assert (Hsum : forall o4, disc_calls (out_app o2 (out_app o3 o4)) = (disc_calls o3 + disc_calls o4)%nat)
+        by (intros o4; cbn [out_app disc_calls]; rewrite D2; reflexivity).
+      destruct (st c3) eqn:Es3.
+      + pair_inv H c' o. destruct C3 as [L|(R1 & R2 & R3)].
+        * left. cbn [out_app disc_calls]. rewrite D2, L. reflexivity.
+        * right. cbn [rbuf wbuf st set_last_read]. repeat split; assumption.
+      + destruct C3 as [L|(R1 & R2 & R3)].
+        * destruct (parse_all dec now (set_last_read c3 now)) as [c4 o4] eqn:E4.
+          unfold parse_all in E4. apply parse_loop_clr in E4. pair_inv H c' o.
+          destruct E4 as [L4|R4]; [left; rewrite Hsum, L, L4; reflexivity|right; exact R4].
+        * rewrite (parse_all_empty now (set_last_read c3 now) R1) in H. pair_inv H c' o.
+          right. cbn [rbuf wbuf st set_last_read]. repeat split; assumption.
+      + destruct C3 as [L|(R1 & R2 & R3)]; [|congruence].
+        destruct (parse_all dec now (set_last_read c3 now)) as [c4 o4] eqn:E4.
+        unfold parse_all in E4. apply parse_loop_clr in E4. pair_inv H c' o.
+        destruct E4 as [L4|R4]; [left; rewrite Hsum, L, L4; reflexivity|right; exact R4].
+  Qed.
+
+  (* Whatever the event and the state: if onDisconnected ran during it, then
+     when the handler returns both buffers are empty -- with or without a
+     reconnecting callback, and even when the handler went on after the
+     reconnect (timeout + READ/WRITE, where the fresh connection is marked
+     CONNECTED in the same call). *)
+  Theorem step_disconnect_clears c e c' o :
+    step dec c e = (c', o) -> (0 < disc_calls o)%nat -> rbuf c' = [] /\ wbuf c' = [].
+  Proof.
+    intros H Hd.
+    assert (Fin : clr c' o -> rbuf c' = [] /\ wbuf c' = []).
+    { intros [L|(R1 & R2 & _)]; [lia|split; assumption]. }
+    destruct e as [now p script|now rd wr er soerr ss rs|now|now].
+    - apply Fin. exact (try_send_clr _ _ _ _ _ H).
+    - unfold step in H. destruct (st c) eqn:Es.
+      + pair_inv H c' o. cbn in Hd. lia.
+      + (* CONNECTING *)
+        destruct er; [apply Fin; exact (disconnect_clr _ _ _ _ H)|].
+        unfold check_timeout in H. cbv zeta in H.
+        destruct (now - last_read c >? timeout c) eqn:Et.
+        * rewrite (disconnect_live now c) in H by congruence.
+          destruct (dead_buffers now c) as [B1 B2].
+          rewrite andb_false_r in H. unfold dead in *.
+          destruct (reconnect c); cbn [st connect cleared] in H.
+          -- destruct (rd || wr); pair_inv H c' o; split; assumption.
+          -- pair_inv H c' o. split; assumption.
+        * rewrite Es in H. rewrite andb_true_r in H.
+          destruct ((rd || wr) && soerr).
+          -- destruct (disconnect now c) as [c2 o2] eqn:E2.
+             destruct (disconnect_buffers now c c2 o2 E2) as (B1 & B2 & _).
+             pair_inv H c' o. split; assumption.
+          -- destruct (rd || wr); pair_inv H c' o; cbn in Hd; lia.
+      + (* CONNECTED *)
+        destruct er; [apply Fin; exact (disconnect_clr _ _ _ _ H)|].
+        unfold check_timeout in H. cbv zeta in H.
+        destruct (now - last_read c >? timeout c) eqn:Et.
+        * rewrite (disconnect_live now c) in H by congruence.
+          destruct (dead_buffers now c) as [B1 B2].
+          rewrite andb_false_r in H. unfold dead in *.
+          destruct (reconnect c); cbn [st connect cleared] in H.
+          -- destruct (rd || wr); pair_inv H c' o; split; assumption.
+          -- pair_inv H c' o. split; assumption.
+        * rewrite Es in H. rewrite andb_true_r in H.
+          destruct ((rd || wr) && soerr).
+          -- destruct (disconnect now c) as [c2 o2] eqn:E2.
+             destruct (disconnect_buffers now c c2 o2 E2) as (B1 & B2 & _).
+             pair_inv H c' o. split; assumption.
+          -- destruct (poll_connected dec now rd wr ss rs c) as [c2 o2] eqn:E2.
+             apply poll_connected_clr in E2. pair_inv H c' o.
+             rewrite out_app_no_out_l in Hd.
+             destruct E2 as [L|(R1 & R2 & _)]; [lia|split; assumption].
+    - apply Fin. exact (disconnect_clr _ _ _ _ H).
+    - unfold step in H. pair_inv H c' o. cbn in Hd. lia.
+  Qed.
+
+  (* how a read burst ends in a disconnect: ECONNRESET, EOF, or SO_ERROR set
+     after a successful recv *)
+  Definition burst_end (tl : list rres) : Prop :=
+    match tl with
+    | RErr :: _ => True
+    | RChunk [] _ :: _ => True
+    | RChunk _ true :: _ => True
+    | _ => False
+    end.
+
+  Lemma read_loop_burst_end now tl c :
+    burst_end tl -> read_loop now tl c = disconnect now c.
+  Proof.
+    destruct tl as [|[b e| |] r]; cbn; intros H; try destruct H; try reflexivity.
+    destruct e; [reflexivity|]. destruct b; [reflexivity|destruct H].
+  Qed.
+
+  (* "in particular": the read burst [bs] (any bytes -- complete frames, a
+     partial frame, a few header bytes) that ends in EOF/error: nothing of it is
+     delivered and nothing of it is in the buffer afterwards, neither of the
+     dead connection nor of the one the callback opened *)
+  Theorem read_burst_disconnect c now bs tl :
+    st c = Connected -> now - last_read c <= timeout c ->
+    Forall (fun b => b <> []) bs -> burst_end tl ->
+    step dec c (EPoll now true false false false [] (chunks_script bs ++ tl))
+    = (set_last_read (dead now c) now, disc_out).
+  Proof.
+    intros Hst Ht Hbs Htl. unfold step. rewrite Hst.
+    rewrite (check_timeout_ok now c Ht). cbv beta iota zeta. rewrite Hst.
+    cbn [orb andb]. unfold poll_connected. cbv beta iota. rewrite Hst.
+    rewrite (read_loop_chunks now bs c tl Hbs), (read_loop_burst_end now tl _ Htl).
+    rewrite disconnect_live by (cbn [st set_rbuf]; congruence).
+    change (dead now (set_rbuf c (rbuf c ++ concat bs))) with (dead now c).
+    cbv beta iota. cbn [st set_last_read].
+    unfold dead. destruct (reconnect c); cbn [st connect cleared]; [|reflexivity].
+    rewrite parse_all_empty by reflexivity. reflexivity.
+  Qed.
+
+  (* ---------------------------------------------------------------- *)
+  (* C13_reader_after_reconnect                                        *)
+
+  (* the CONNECTING branch of __processConnection: first READ/WRITE event
+     without error: onConnected, CONNECTED, lastReadTime := now, return *)
+  Lemma step_establish c now rd wr ss rs :
+    st c = Connecting -> now - last_read c <= timeout c -> rd || wr = true ->
+    step dec c (EPoll now rd wr false false ss rs) =
+      ({| st := Connected; rbuf := rbuf c; wbuf := wbuf c; last_read := now;
+          timeout := timeout c; reconnect := reconnect c |}, conn_out).
+  Proof.
+    intros Hst Ht Hrw. unfold step. rewrite Hst.
+    rewrite (check_timeout_ok now c Ht). cbv beta iota zeta. rewrite Hst, Hrw.
+    cbn [andb]. rewrite out_app_no_out_l. reflexivity.
+  Qed.
+
+  Definition connected_delivering (ms : list N) : outs :=
+    {| accepted := []; delivered := ms; disc_calls := 0; conn_calls := 1; miss := false |}.
+
+  (* a CONNECTING connection with an empty read buffer: it is established by
+     the first READ/WRITE event and then receives its stream exactly *)
+  Theorem reader_from_connecting ms ps c t0 rd wr ss rs :
+    Forall good ms -> st c = Connecting -> rbuf c = [] ->
+    t0 - last_read c <= timeout c -> rd || wr = true ->
+    polls_ok t0 (timeout c) ps ->
+    concat (map snd ps) = stream ms ->
+    exists c' os,
+      run dec c (EPoll t0 rd wr false false ss rs :: map poll_event ps) = (c', os) /\
+      st c' = Connected /\ rbuf c' = [] /\
+      sum_outs os = connected_delivering ms.
+  Proof.
+    intros Hg Hst Hr Ht Hrw Hok Hc. cbn [run].
+    rewrite (step_establish c t0 rd wr ss rs Hst Ht Hrw).
+    set (c1 := {| st := Connected; rbuf := rbuf c; wbuf := wbuf c; last_read := t0;
+                  timeout := timeout c; reconnect := reconnect c |}).
+    destruct (reader_run_complete ms ps c1 Hg eq_refl Hr Hok Hc)
+      as (c' & os & R & F1 & F2 & _ & F4).
+    exists c', (conn_out :: os). rewrite R. repeat split; try assumption.
+    cbn [sum_outs fold_right]. fold (sum_outs os). rewrite F4. reflexivity.
+  Qed.
+
+  (* Whatever the connection held and whatever event [e] made onDisconnected
+     run: if the callback reconnected (the state after the event is not
+     DISCONNECTED), the new connection receives the stream sent on it exactly --
+     nothing of the old connection is delivered, nothing is lost or mis-framed.
+     (After a timeout the handler may already have marked the fresh connection
+     CONNECTED; otherwise the next READ/WRITE event does.) *)
+  Theorem reader_after_reconnect ms ps c e c1 o1 :
+    Forall good ms ->
+    step dec c e = (c1, o1) -> (0 < disc_calls o1)%nat ->
+    concat (map snd ps) = stream ms ->
+    (st c1 = Connecting ->
+     forall t0 rd wr ss rs,
+       t0 - last_read c1 <= timeout c1 -> rd || wr = true ->
+       polls_ok t0 (timeout c1) ps ->
+       exists c' os,
+         run dec c1 (EPoll t0 rd wr false false ss rs :: map poll_event ps) = (c', os) /\
+         st c' = Connected /\ rbuf c' = [] /\ sum_outs os = connected_delivering ms) /\
+    (st c1 = Connected ->
+     polls_ok (last_read c1) (timeout c1) ps ->
+     exists c' os,
+       run dec c1 (map poll_event ps) = (c', os) /\
+       st c' = Connected /\ rbuf c' = [] /\ sum_outs os = mk_out ms).
+  Proof.
+    intros Hg Hstep Hd Hc.
+    destruct (step_disconnect_clears c e c1 o1 Hstep Hd) as [Hr _].
+    split.
+    - intros Hst t0 rd wr ss rs Ht Hrw Hok.
+      exact (reader_from_connecting ms ps c1 t0 rd wr ss rs Hg Hst Hr Ht Hrw Hok Hc).
+    - intros Hst Hok.
+      destruct (reader_run_complete ms ps c1 Hg Hst Hr Hok Hc) as (c' & os & R & F1 & F2 & _ & F4).
+      exists c', os. repeat split; assumption.
+  Qed.
+
+  (* the same after an explicit connect() on any connection *)
+  Theorem reader_after_connect ms ps c now t0 rd wr ss rs :
+    Forall good ms ->
+    t0 - now <= timeout c -> rd || wr = true ->
+    polls_ok t0 (timeout c) ps ->
+    concat (map snd ps) = stream ms ->
+    exists c' os,
+      run dec c (EConnect now :: EPoll t0 rd wr false false ss rs :: map poll_event ps) = (c', os) /\
+      st c' = Connected /\ rbuf c' = [] /\ sum_outs os = connected_delivering ms.
+  Proof.
+    intros Hg Ht Hrw Hok Hc.
+    destruct (reader_from_connecting ms ps (connect now c) t0 rd wr ss rs Hg eq_refl eq_refl Ht Hrw Hok Hc)
+      as (c' & os & R & F1 & F2 & F3).
+    exists c', (no_out :: os).
+    change (run dec c (EConnect now :: EPoll t0 rd wr false false ss rs :: map poll_event ps))
+      with (let (c2, os2) := run dec (connect now c) (EPoll t0 rd wr false false ss rs :: map poll_event ps)
+            in (c2, no_out :: os2)).
+    rewrite R. repeat split; try assumption.
+    cbn [sum_outs fold_right]. fold (sum_outs os). rewrite F3. reflexivity.
   Qed.
 
 End C13.
